@@ -160,6 +160,10 @@ impl<'tcx> Cx<'tcx> {
                     if let Some(c) = self.dump_const_item(ldid, kind) {
                         consts.push(c);
                     }
+                    // the initialiser's body, so that rules can read e.g. `const NOP: NodeBounds = NodeBounds { .. }`
+                    if !matches!(kind, DefKind::Static { .. }) && !tcx.generics_of(did).requires_monomorphization(tcx) {
+                        fns.push(self.dump_fn(ldid, kind));
+                    }
                 }
                 _ => {}
             }
@@ -539,11 +543,19 @@ impl<'tcx> Cx<'tcx> {
     fn dump_fn(&self, ldid: LocalDefId, kind: DefKind) -> J {
         let tcx = self.tcx;
         let did = ldid.to_def_id();
-        let body: &Body<'tcx> = tcx.optimized_mir(did);
+        let body: &Body<'tcx> = if matches!(kind, DefKind::Const { .. } | DefKind::AssocConst { .. }) {
+            tcx.mir_for_ctfe(did)
+        } else {
+            tcx.optimized_mir(did)
+        };
         let mut o: Vec<(&'static str, J)> = Vec::new();
         o.push(("path", J::Str(self.path(did))));
-        o.push(("kind", J::Str(format!("{:?}", kind))));
-        let name = if matches!(kind, DefKind::Closure) { "{closure}".to_string() } else { tcx.item_name(did).to_string() };
+        o.push(("kind", J::Str(format!("{:?}", kind).split_whitespace().next().unwrap_or("").trim_end_matches('{').to_string())));
+        let name = if matches!(kind, DefKind::Closure) {
+            "{closure}".to_string()
+        } else {
+            tcx.opt_item_name(did).map(|s| s.to_string()).unwrap_or_else(|| "_".to_string())
+        };
         o.push(("name", J::Str(name)));
         o.push(("span", self.span_j(tcx.def_span(did))));
         if matches!(kind, DefKind::Fn | DefKind::AssocFn) {
